@@ -211,11 +211,11 @@ theorem zrem_removes_exactly (c : Ctx) (s : State) (k m : Bytes) (ms : KMap Flt)
       simp [handleZRem, withZSet, keysExist_single, h1, getValues_live _ _ _ _ h1 h2, asZSet?, hm]
   · cases hm : ms.get m <;>
       simp [handleZRem, withZSet, keysExist_single, h1, getValues_live _ _ _ _ h1 h2, asZSet?, hm,
-        lookup_mutObj_same s c.db k _ _ h1 rfl, Val.withOid, del_absent ms m]
+        zlookup_mutObj_same s c.db k _ _ h1 rfl, Val.withOid, del_absent ms m]
   · intro k2 hne
     cases hm : ms.get m <;>
       simp [handleZRem, withZSet, keysExist_single, h1, getValues_live _ _ _ _ h1 h2, asZSet?, hm,
-        lookup_mutObj_other s c.db k k2 _ _ h1 rfl hne]
+        zlookup_mutObj_other s c.db k k2 _ _ h1 rfl hne]
 
 /-- **ZINCRBY adds to the score** of an existing member (finite score, sum inside the exact domain):
     the reply and the stored score are `old + increment`. -/
@@ -230,7 +230,7 @@ theorem zincrby_adds (c : Ctx) (s : State) (k m tok : Bytes) (ms : KMap Flt) (ex
   have n5 : (b "xx" == b "nx") = false := by decide
   have i1 : eqFold (b "incr") (b "incr") = true := by decide
   simp [handleZIncrBy, ht, keysExist_single, h1, getValues_live _ _ _ _ h1 h2, asZSet?, addOrUpdate, hm, hfin, hadd,
-    e3, l3, n5, i1, lookup_mutObj_same s c.db k _ _ h1 rfl, Val.withOid, KMap.get_put_same, Flt.zero]
+    e3, l3, n5, i1, zlookup_mutObj_same s c.db k _ _ h1 rfl, Val.withOid, KMap.get_put_same, Flt.zero]
 
 /-- non-vacuity of `zincrby_adds`: 1.5 + 0.25 -/
 example : (Flt.fin ⟨15, -1⟩).add (Flt.fin ⟨25, -2⟩) = some (Flt.fin ⟨175, -2⟩) := by decide
